@@ -6,7 +6,7 @@
     Part 2: the description of a repository that publishes a pdiff index
     for a history (used by the theorems). *)
 From Coq Require Import String.
-From Verif Require Import Lib.Base Lib.PyStr Lib.Dec.
+From Verif Require Import Lib.Base Lib.PyStr Lib.Dec Pdiff.EdSpec.
 
 (** * Part 1: the three statements of the property, judged on an observation *)
 
@@ -125,3 +125,126 @@ Definition property_holds (s : scenario) (o : observation) : bool :=
   | MustFail => failed_safely s o
   | Either => converged s o || failed_safely s o
   end.
+
+(** * Part 2: a repository that publishes a pdiff index for a history
+
+    The history is given by its oldest version [v0] and one [pstep] per published
+    patch: the alignment (EdSpec) between the version before and the version
+    after, from which the patch — the descending ed script of the alignment, in
+    ed's concrete syntax — is derived.  Every (old, new) pair and every diff
+    algorithm is some alignment (C18). *)
+
+Record pstep := mkstep {
+  ps_name : str;             (* file name of the patch below <remote>.diff/ *)
+  ps_hsize : str;            (* size column of its -History row *)
+  ps_psize : str;            (* size column of its -Patches row *)
+  ps_wide : bool;            (* "n,n" instead of "n" for one-line ranges *)
+  ps_al : list seg }.        (* the alignment old -> new the patch was computed from *)
+
+Definition ps_script (s : pstep) : list str := render (ps_wide s) (script_of (ps_al s)).
+Definition ps_new (s : pstep) : list str := new_of (ps_al s).
+
+(** v0 .. vn *)
+Fixpoint versions (v : list str) (steps : list pstep) : list (list str) :=
+  v :: match steps with [] => [] | s :: r => versions (ps_new s) r end.
+
+(** every alignment is well formed, starts at the version before it, and the
+    next one starts where it ends *)
+Fixpoint chain_ok (v : list str) (steps : list pstep) : bool :=
+  match steps with
+  | [] => true
+  | s :: r => forallb seg_ok (ps_al s) && lines_eqb (old_of (ps_al s)) v && chain_ok (ps_new s) r
+  end.
+
+Definition is_nil_str (s : str) : bool := match s with [] => true | _ :: _ => false end.
+
+Fixpoint distinct (names : list str) : bool :=
+  match names with
+  | [] => true
+  | n :: r => negb (existsb (str_eqb n) r) && distinct r
+  end.
+
+(** The index as a list of (field name, field contents) — all paragraphs
+    together, in file order, contents as a deb822 reader delivers them: first
+    line and continuation lines joined by LF, outer whitespace stripped. *)
+Record pubindex := mkpidx {
+  px_fields : list (str * str);
+  px_sep : str;                        (* the column separator *)
+  px_cur_size : str;                   (* size column of -Current *)
+  px_hist_entries : list str;          (* the lines of the -History contents (blank ones allowed) *)
+  px_patch_entries : list str }.       (* the lines of the -Patches contents *)
+
+Definition field_count (name : str) (fs : list (str * str)) : nat :=
+  List.length (filter (fun f => str_eqb (fst f) name) fs).
+
+(** every field called [name] has the contents [value] *)
+Definition field_is (name value : str) (fs : list (str * str)) : bool :=
+  forallb (fun f => negb (str_eqb (fst f) name) || str_eqb (snd f) value) fs.
+
+Definition nonblank (es : list str) : list str := filter (fun e => negb (is_nil_str e)) es.
+
+Section Published.
+Variable is_space : N -> bool.
+Variable is_linebreak : N -> bool.
+Variable prefix : str.                  (* "SHA1" or "SHA256" *)
+Variable Hk : list str -> str.          (* that digest of a content, as the index prints it *)
+
+(** a column: non-empty, no white space;  a separator: non-empty, only white space *)
+Definition token_ok (t : str) : bool :=
+  negb (is_nil_str t) && forallb (fun c => negb (is_space c)) t.
+Definition sep_ok (w : str) : bool :=
+  negb (is_nil_str w) && forallb is_space w.
+Definition lb_free (e : str) : bool := forallb (fun c => negb (is_linebreak c)) e.
+
+Definition fname (suffix : string) : str := prefix ++ dec suffix.
+
+Definition row (w h s n : str) : str := h ++ w ++ s ++ w ++ n.
+
+(** -History: digest of the version BEFORE the patch, size, patch name; oldest first *)
+Fixpoint hist_rows (w : str) (v : list str) (steps : list pstep) : list str :=
+  match steps with
+  | [] => []
+  | s :: r => row w (Hk v) (ps_hsize s) (ps_name s) :: hist_rows w (ps_new s) r
+  end.
+
+(** -Patches: digest of the patch file itself, size, patch name *)
+Definition patch_rows (w : str) (steps : list pstep) : list str :=
+  map (fun s => row w (Hk (ps_script s)) (ps_psize s) (ps_name s)) steps.
+
+(** -Current records the digest of [vn]: every field of that name reads
+    "<digest of vn> <size>". *)
+Definition current_ok (vn : list str) (px : pubindex) : bool :=
+  token_ok (Hk vn) && sep_ok (px_sep px) && token_ok (px_cur_size px)
+  && field_is (fname "-Current") (Hk vn ++ px_sep px ++ px_cur_size px) (px_fields px).
+
+(** the contents of a multi-line field whose lines are [entries] *)
+Definition entries_value (entries : list str) : str := join [10%N] entries.
+
+(** The index is well formed and records the history [v0], [steps] in -Current
+    and -History, and digests for the patches [psteps] in -Patches. *)
+Definition index_records (v0 : list str) (steps psteps : list pstep) (px : pubindex) : bool :=
+  let fs := px_fields px in
+  forallb (fun s => token_ok (ps_name s) && token_ok (ps_hsize s) && token_ok (ps_psize s)
+                    && token_ok (Hk (ps_script s))) steps
+  && forallb (fun s => token_ok (ps_name s) && token_ok (ps_hsize s) && token_ok (ps_psize s)
+                       && token_ok (Hk (ps_script s))) psteps
+  && forallb (fun v => token_ok (Hk v)) (versions v0 steps)
+  && current_ok (current (versions v0 steps)) px
+  && (1 <=? field_count (fname "-Current") fs)%nat
+  && (field_count (fname "-History") fs =? 1)%nat
+  && field_is (fname "-History") (entries_value (px_hist_entries px)) fs
+  && forallb lb_free (px_hist_entries px)
+  && strs_eqb (nonblank (px_hist_entries px)) (hist_rows (px_sep px) v0 steps)
+  && (field_count (fname "-Patches") fs =? 1)%nat
+  && field_is (fname "-Patches") (entries_value (px_patch_entries px)) fs
+  && forallb lb_free (px_patch_entries px)
+  && strs_eqb (nonblank (px_patch_entries px)) (patch_rows (px_sep px) psteps).
+
+(** The repository publishes the history: the alignments chain up, patch names
+    are distinct, and the index records every version and every patch. *)
+Definition publishes (v0 : list str) (steps : list pstep) (px : pubindex) : bool :=
+  chain_ok v0 steps
+  && distinct (map ps_name steps)
+  && index_records v0 steps steps px.
+
+End Published.
